@@ -32,6 +32,9 @@ def run_property(pid: str, tier: str, seed: int, only_rule: str = "") -> int:
     try:
         from .core.context import Context
 
+        from .core.report import guard_rules
+
+        guard_rules(mod)
         ctx = Context(tier=tier, seed=seed)
         results = mod.run(ctx)
         if only_rule:
